@@ -155,6 +155,11 @@ func runHTTPInBubble(s HTTPScript) (res vt.Result) {
 		metaBad := m.Meta == "nocaps" || m.Meta == "nullcaps" || m.Meta == "nullinfo" || m.Meta == "badcaps" || m.Meta == "badinfo"
 		verBad := m.Meta == "newer"
 		removed := slices.Contains(removedInModern, m.Method)
+		// clientInfo is documented optional; an explicit null may be refused (wrong type) or taken as absent.
+		// If it was not refused with -32602 the request is judged like one with complete metadata.
+		if m.Meta == "nullinfo" && !(isErr && code == -32602) {
+			metaBad = false
+		}
 		switch {
 		case metaBad || verBad:
 			nt = true
@@ -173,7 +178,7 @@ func runHTTPInBubble(s HTTPScript) (res vt.Result) {
 					Supported []string `json:"supported"`
 				}
 				json.Unmarshal(resp.Error.Data, &d)
-				if !slices.Equal(d.Supported, sdkVersions) {
+				if !sameVersions(d.Supported, sdkVersions) { // as a set: the order is not part of the property
 					res.Failf("msg %d: -32022 lists supported versions %v, want %v", i, d.Supported, sdkVersions)
 				}
 			}
@@ -185,7 +190,8 @@ func runHTTPInBubble(s HTTPScript) (res vt.Result) {
 				res.Failf("msg %d: %s carrying 2026-07-28 metadata answered HTTP %d %s, want method-not-found (-32601)", i, m.Method, status, brief(&resp))
 			}
 		default:
-			if len(newReached) == 0 {
+			// (server/discover is session-independent data: a result is proof of service wherever it was produced)
+			if len(newReached) == 0 && !(m.Method == "server/discover" && !isErr && resp.Result != nil) {
 				res.Failf("msg %d: %s with complete 2026-07-28 metadata did not reach the server's handlers: HTTP %d %s", i, m.Method, status, brief(&resp))
 			}
 			if isErr && gateLike(resp.Error.Message) {
